@@ -233,7 +233,7 @@ RESULT_CODE: /yieldcode|finishcode/
 %import common.HEXDIGIT
 
 HEX_NUMBER: ["+"|"-"] "0x" HEXDIGIT+
-BIN_NUMBER: "0b" ["0"|"1"]+
+BIN_NUMBER: "0b" ("0"|"1")+
 RADIX_NUMBER: HEX_NUMBER | BIN_NUMBER | NUMBER
 IDENTIFIER.-1: CNAME
 
